@@ -1,4 +1,5 @@
 """C12 - the emitted history is a faithful, ordered sequence of snapshots."""
+import copy
 import itertools
 
 from vivarium.core.registry import Serializer
@@ -45,7 +46,11 @@ STORE_SCHEMAS = [None, {'s0': {'_emit': True}}, {'shared': {'_emit': False}},
                  # below it; a branch-level ON likewise
                  {'cell': {'_emit': False}},
                  {'cell': {'nucleus': {'_emit': False}},
-                  'shared': {'_emit': True}}]
+                  'shared': {'_emit': True}},
+                 # an override on a glob child that exists from the start
+                 # survives the later _add of its siblings
+                 {'kids': {'k0': {'v': {'_emit': False},
+                                  'w': {'_emit': True}}}}]
 
 
 class VmcSerializer(Serializer):
@@ -63,9 +68,16 @@ def grow_in_place(current, update):
     return current
 
 
+def append_in_place(current, update):
+    current.append(update)
+    return current
+
+
 from vmc import probes as _probes  # noqa: E402
 _probes._register(_probes.updater_registry, 'vmc_grow_in_place',
                   grow_in_place)
+_probes._register(_probes.updater_registry, 'vmc_append_in_place',
+                  append_in_place)
 
 
 VMC_SER = VmcSerializer()
@@ -96,6 +108,12 @@ def world(tss, flags, store_schema, emit_step, script, with_step, struct):
                 '_default': {'n': 0, 'keys': []}, '_emit': True,
                 '_updater': 'vmc_grow_in_place', '_serializer': VMC_SER}
             spec['update']['priv']['rec'] = {'$key': 'e'}
+            # an emitted list that its updater extends IN PLACE (no
+            # serializer: the emitter is handed the live object)
+            spec['schema']['priv']['log'] = {
+                '_default': [], '_emit': True,
+                '_updater': 'vmc_append_in_place'}
+            spec['update']['priv']['log'] = {'$key': 'l'}
             # a nested branch: cell/size, cell/nucleus/dna,
             # cell/nucleus/pores/open (on, on, off)
             spec['schema']['cell'] = {
@@ -155,6 +173,8 @@ def world(tss, flags, store_schema, emit_step, script, with_step, struct):
     # the initial value of the units variable is given in another
     # compatible unit and reaches the store without passing an updater
     state = {'s0': {'mass': 0.002 * units.pg}}
+    if struct:
+        state['kids'] = {'k0': {'v': 3}}
     if store_schema:
         eng['store_schema'] = store_schema
     return {'processes': processes, 'steps': steps, 'flow': flow,
@@ -175,6 +195,7 @@ def flagged(spec):
     on.add(('s0', 'mass'))
     on.add(('s0', 'cs'))
     on.add(('s0', 'rec'))
+    on.add(('s0', 'log'))
     on.add(('cell', 'size'))
     on.add(('cell', 'nucleus', 'dna'))
     on.add(('shared', 'qs'))
@@ -186,6 +207,8 @@ def flagged(spec):
         val = path in on
         if spec['struct'] and path[0] == 'kids' and len(path) == 3:
             val = path[2] in ('v', 'mass')
+        if path[0] == 'kids' and not spec['struct']:
+            return False
         # store_schema overrides, applied once at construction
         node = ss
         for depth, key in enumerate(path):
@@ -374,6 +397,44 @@ def jobs(ctx):
     return out
 
 
+def ram_differential(spec, rows, acc):
+    """The same world through the library's RAMEmitter: what it hands
+    back row by row equals what was emitted at the time (a row is a
+    snapshot, not a view of objects that keep changing)."""
+    ex2 = worlds.execute(spec, guard_factory=sched.lasso_guard,
+                         emitter={'type': 'timeseries'})
+    if ex2.error:
+        acc.violate(fw.violation(
+            'C12.crash', 'ram:' + sched.crash_fp(ex2),
+            f'RAMEmitter run: unexpected {ex2.error[2]!r}', spec))
+        return
+    got = ex2.engine.emitter.get_data()
+    want = {t: d for t, d, _ in rows}
+    if list(got) != list(want):
+        acc.violate(fw.violation(
+            'C12.keys', 'ram-emitter-keys-differ',
+            f'RAMEmitter keys {list(got)} vs emitted {list(want)}', spec))
+        return
+    for t in want:
+        a = fw.jdump(leaves_plain(got[t]))
+        b = fw.jdump(leaves_plain(want[t]))
+        if a != b:
+            acc.violate(fw.violation(
+                'C12.content', 'ram-emitter-row-is-not-a-snapshot',
+                f'row t={t}: RAMEmitter returns {a[:300]}, emitted at the '
+                f'time {b[:300]}', spec))
+            return
+
+
+def leaves_plain(tree):
+    if isinstance(tree, dict):
+        return {k: leaves_plain(v) for k, v in sorted(tree.items())}
+    if isinstance(tree, (list, tuple)):
+        return [leaves_plain(v) for v in tree]
+    return str(tree) if not isinstance(
+        tree, (int, float, str, bool, type(None))) else tree
+
+
 def run_job(job, acc):
     tss, flags, ss, sc, with_step, struct = job
     base_rows = None
@@ -385,6 +446,8 @@ def run_job(job, acc):
         viols, rows = check(spec, ex, base_rows)
         if emit_step == 1:
             base_rows = rows
+            if rows and not viols and ss is None and len(flags) in (0, 4):
+                ram_differential(spec, rows, acc)
         acc.case(key=(job, emit_step),
                  outcome=f'E:emit_step={emit_step}:rows='
                          f'{len(rows) if rows else 0}')
